@@ -55,6 +55,33 @@ def no_narrowing(ck, rule):
     ck.ok(rule, "reader-chain:precision", fns[0].where if fns else "", f"{n} calls in the CMAP reader chain: no narrowing conversion of coordinates")
 
 
+def reader_is_stateless(ck, rule):
+    """what a file is parsed into does not depend on the files read before through the same reader object"""
+    from ..rules.effects import self_state_writes
+    p = ck.ctx.p
+    ck.clause(rule, "reading a file writes no state of the reader object (one reader serves reference and query file: nothing of the "
+                    "first file may be remembered for the second)")
+    n_fn = 0
+    for cls_name in ("BionanoFileReader", "CmapReader"):
+        cls = p.find_class(cls_name)
+        for m in cls.methods.values():
+            if m.name == "__init__" or m.name.startswith("_") and not m.name.startswith("_" + cls_name.lstrip("_")):
+                if m.name == "__init__":
+                    continue
+            hits, n = self_state_writes(p, m)
+            n_fn += 1
+            for f, node, kind in hits:
+                if kind != "state-write":
+                    continue
+                ck.violation(rule, short(f) + ":state-write", where(f, node), "the reader remembers something from the file it is "
+                             "reading: the next file read through the same reader (the query file after the reference file) is "
+                             "parsed with what the first one left behind", found=ast.unparse(node)[:140],
+                             required="no write to self.* outside __init__")
+    ck.floor(f"{rule} reader methods examined", n_fn, 6)
+    if not any(o.rule == rule and o.status == "VIOLATION" for o in ck.obligations):
+        ck.ok(rule, "readers:stateless", "src/parsers/", f"{n_fn} reader methods write no attribute of the reader")
+
+
 def run(ck):
     ctx = ck.ctx
     p = ctx.p
@@ -66,6 +93,7 @@ def run(ck):
     ck.clause("C17.4", "queries trimmed, references not")
     ck.clause("C17.5", "trim formulae")
     id_filters(ck, "C17.3", "C17.1")
+    reader_is_stateless(ck, "C17.7")
     cr = p.find_class("CmapReader")
     parse = cr.methods.get(mangle("__parseCmapRowsGroup", "CmapReader"))
     read = cr.methods.get(mangle("__read", "CmapReader"))
